@@ -208,6 +208,7 @@ func (w *Writer) Put2(bs []byte) (n *skiplist.Node) {
 	var success bool
 	x := w.newItem(bs, w.useMemoryMgmt)
 	x.bornSn = w.GetCurrSn()
+	verifYield(vpPutInsert, unsafe.Pointer(w))
 	n, success = w.store.Insert2(unsafe.Pointer(x), w.insCmp, w.existCmp, w.buf,
 		w.rand.Float32, &w.slSts1)
 	if success {
@@ -251,15 +252,18 @@ func (w *Writer) DeleteNode(x *skiplist.Node) (success bool) {
 	sn := w.GetCurrSn()
 	gotItem := (*Item)(x.Item())
 	if gotItem.bornSn == sn {
+		verifYield(vpDelNodePhys, unsafe.Pointer(w))
 		success = w.store.DeleteNode(x, w.insCmp, w.buf, &w.slSts1)
 		if success {
 			x.SetLink(nil)
 			barrier := w.store.GetAccesBarrier()
+			verifYield(vpDelNodeFlush, unsafe.Pointer(w))
 			barrier.FlushSession(unsafe.Pointer(x))
 		}
 		return
 	}
 
+	verifYield(vpDelNodeCas, unsafe.Pointer(w))
 	success = atomic.CompareAndSwapUint32(&gotItem.deadSn, 0, sn)
 	if success {
 		x.SetLink(nil)
@@ -571,10 +575,12 @@ func (s *Snapshot) Decode(buf []byte, r io.Reader) error {
 // snapshot. This API internally tracks the reference count for the snapshot.
 func (s *Snapshot) Open() bool {
 	for {
+		verifYield(vpOpenLoad, unsafe.Pointer(s))
 		rc := atomic.LoadInt32(&s.refCount)
 		if rc == 0 {
 			return false
 		}
+		verifYield(vpOpenCas, unsafe.Pointer(s))
 		if atomic.CompareAndSwapInt32(&s.refCount, rc, rc+1) {
 			return true
 		}
@@ -585,14 +591,17 @@ func (s *Snapshot) Open() bool {
 // Once a thread has finished using a snapshot, it can be destroyed by calling
 // Close(). Internal garbage collector takes care of freeing the items.
 func (s *Snapshot) Close() {
+	verifYield(vpCloseDec, unsafe.Pointer(s))
 	newRefcount := atomic.AddInt32(&s.refCount, -1)
 	if newRefcount == 0 {
 		buf := s.db.snapshots.MakeBuf()
 		defer s.db.snapshots.FreeBuf(buf)
 
 		// Move from live snapshot list to dead list
+		verifYield(vpCloseRetire, unsafe.Pointer(s))
 		s.db.snapshots.Delete(unsafe.Pointer(s), CompareSnapshot, buf, &s.db.snapshots.Stats)
 		s.db.gcsnapshots.Insert(unsafe.Pointer(s), CompareSnapshot, buf, &s.db.gcsnapshots.Stats)
+		verifYield(vpCloseGC, unsafe.Pointer(s))
 		s.db.GC()
 	}
 }
@@ -669,7 +678,9 @@ func (m *Nitro) collectionWorker(w *Writer) {
 				close(w.dwrCtx.closed)
 				return
 			}
+			verifYield(vpWorkerRecv, unsafe.Pointer(w))
 			for n := gclist; n != nil; n = n.GetLink() {
+				verifYield(vpWorkerNode, unsafe.Pointer(w))
 				w.doDeltaWrite((*Item)(n.Item()))
 				m.store.DeleteNode(n, m.insCmp, buf, &w.slSts2)
 			}
@@ -677,13 +688,16 @@ func (m *Nitro) collectionWorker(w *Writer) {
 			m.store.Stats.Merge(&w.slSts2)
 
 			barrier := m.store.GetAccesBarrier()
+			verifYield(vpWorkerFlush, unsafe.Pointer(w))
 			barrier.FlushSession(unsafe.Pointer(gclist))
+			verifYield(vpWorkerDone, unsafe.Pointer(w))
 		}
 	}
 }
 
 func (m *Nitro) freeWorker(w *Writer) {
 	for freelist := range m.freechan {
+		verifYield(vpFreeRecv, unsafe.Pointer(w))
 		for n := freelist; n != nil; {
 			dnode := n
 			n = n.GetLink()
@@ -694,6 +708,7 @@ func (m *Nitro) freeWorker(w *Writer) {
 		}
 
 		m.store.Stats.Merge(&w.slSts3)
+		verifYield(vpFreeDone, unsafe.Pointer(w))
 	}
 
 	m.shutdownWg2.Done()
@@ -710,6 +725,7 @@ func (m *Nitro) collectDead() {
 	iter := m.gcsnapshots.NewIterator(CompareSnapshot, buf1)
 	defer iter.Close()
 
+	verifYield(vpCollectRead, unsafe.Pointer(m))
 	for iter.SeekFirst(); iter.Valid(); iter.Next() {
 		node := iter.GetNode()
 		sn := (*Snapshot)(node.Item())
@@ -717,16 +733,20 @@ func (m *Nitro) collectDead() {
 			return
 		}
 
+		verifYield(vpCollectSend, unsafe.Pointer(m))
 		atomic.StoreUint32(&m.lastGCSn, sn.sn)
 		m.gcchan <- sn.gclist
 		m.gcsnapshots.DeleteNode(node, CompareSnapshot, buf2, &m.gcsnapshots.Stats)
+		verifYield(vpCollectRead, unsafe.Pointer(m))
 	}
 }
 
 // GC implements manual garbage collection of Nitro snapshots.
 func (m *Nitro) GC() {
+	verifYield(vpGCTryLock, unsafe.Pointer(m))
 	if atomic.CompareAndSwapInt32(&m.isGCRunning, 0, 1) {
 		m.collectDead()
+		verifYield(vpGCUnlock, unsafe.Pointer(m))
 		atomic.CompareAndSwapInt32(&m.isGCRunning, 1, 0)
 	}
 }
@@ -920,6 +940,7 @@ func (m *Nitro) StoreToDisk(dir string, snap *Snapshot, concurr int, itmCallback
 	manifestdir := dir
 	datadir := filepath.Join(dir, "data")
 	os.MkdirAll(datadir, 0755)
+	verifYield(vpStoreFs, unsafe.Pointer(m))
 	shards := runtime.NumCPU()
 
 	writers := make([]FileWriter, shards)
@@ -928,6 +949,7 @@ func (m *Nitro) StoreToDisk(dir string, snap *Snapshot, concurr int, itmCallback
 	defer func() {
 		for _, w := range writers {
 			if w != nil {
+				verifYield(vpStoreFs, unsafe.Pointer(m))
 				if cerr := w.Close(); cerr != nil && err == nil {
 					err = cerr
 				}
@@ -943,6 +965,7 @@ func (m *Nitro) StoreToDisk(dir string, snap *Snapshot, concurr int, itmCallback
 			return err
 		}
 
+		verifYield(vpStoreFs, unsafe.Pointer(m))
 		writers[shard] = w
 		files[shard] = file
 	}
@@ -955,6 +978,7 @@ func (m *Nitro) StoreToDisk(dir string, snap *Snapshot, concurr int, itmCallback
 		defer func() {
 			for _, w := range deltaWriters {
 				if w != nil {
+					verifYield(vpStoreFs, unsafe.Pointer(m))
 					if cerr := w.Close(); cerr != nil && err == nil {
 						err = cerr
 					}
@@ -964,6 +988,7 @@ func (m *Nitro) StoreToDisk(dir string, snap *Snapshot, concurr int, itmCallback
 
 		deltadir := filepath.Join(dir, "delta")
 		os.MkdirAll(deltadir, 0755)
+		verifYield(vpStoreFs, unsafe.Pointer(m))
 		for id := 0; id < m.numWriters(); id++ {
 			dw := m.newFileWriter(m.fileType)
 			file := fmt.Sprintf("shard-%d", id)
@@ -971,6 +996,7 @@ func (m *Nitro) StoreToDisk(dir string, snap *Snapshot, concurr int, itmCallback
 			if err = dw.Open(deltafile); err != nil {
 				return err
 			}
+			verifYield(vpStoreFs, unsafe.Pointer(m))
 			deltaWriters[id] = dw
 			deltaFiles[id] = file
 		}
@@ -994,11 +1020,13 @@ func (m *Nitro) StoreToDisk(dir string, snap *Snapshot, concurr int, itmCallback
 				bs, _ := json.Marshal(deltaFiles)
 				err = ioutil.WriteFile(filepath.Join(deltadir, "files.json"), bs, 0660)
 				if err == nil {
+					verifYield(vpStoreFs, unsafe.Pointer(m))
 					for id, dwr := range deltaWriters {
 						deltaChecksums[id] = dwr.Checksum()
 					}
 					bs, _ = json.Marshal(deltaChecksums)
 					err = ioutil.WriteFile(filepath.Join(deltadir, "checksums.json"), bs, 0660)
+					verifYield(vpStoreFs, unsafe.Pointer(m))
 				}
 			}
 		}()
@@ -1023,15 +1051,19 @@ func (m *Nitro) StoreToDisk(dir string, snap *Snapshot, concurr int, itmCallback
 
 	manifest, _ := json.Marshal(map[string]interface{}{"version": version})
 	if err = ioutil.WriteFile(filepath.Join(manifestdir, "nitro.json"), manifest, 0660); err == nil {
+		verifYield(vpStoreFs, unsafe.Pointer(m))
 		if err = m.Visitor(snap, visitorCallback, shards, concurr); err == nil {
+			verifYield(vpStoreFs, unsafe.Pointer(m))
 			bs, _ := json.Marshal(files)
 			err = ioutil.WriteFile(filepath.Join(datadir, "files.json"), bs, 0660)
 			if err == nil {
+				verifYield(vpStoreFs, unsafe.Pointer(m))
 				for id, wr := range writers {
 					checksums[id] = wr.Checksum()
 				}
 				bs, _ = json.Marshal(checksums)
 				err = ioutil.WriteFile(filepath.Join(datadir, "checksums.json"), bs, 0660)
+				verifYield(vpStoreFs, unsafe.Pointer(m))
 			}
 		}
 	}
